@@ -459,22 +459,24 @@ class Ref:
         return None
 
     def run_impl(self, i, o, nested):
+        """(result, resolution chain: the implementations picked on the way down)"""
         if i[0] == "d":
-            return self.eval(i[1], o, nested)[0]
+            r, _, _, chain = self.eval(i[1], o, nested)
+            return r, (tuple(i),) + chain
         dsc = self.impls[i[1]]
         pairs = []
         for k, df in dsc["reads"]:
             v = o.get(k, df)
             if v is None:
-                return ("e",)
+                return ("e",), (tuple(i),)
             pairs.append((k, pv(v)))
         bad = dsc.get("bad")
         if bad and (bad[0], pv(bad[1])) in pairs:
-            return ("e",)
-        return ("v", ("t", i[1], tuple(pairs)))
+            return ("e",), (tuple(i),)
+        return ("v", ("t", i[1], tuple(pairs))), (tuple(i),)
 
     def eval(self, d, o, nested=None):
-        """(('v', value) | ('e',), dispatch outcome, effective options)"""
+        """(('v', value) | ('e',), dispatch outcome, effective options, resolution chain)"""
         x = self.ds[d]
         o2 = {**o, **x["preset"]}
         out = ref_dispatch(x["disp"], o2)
@@ -482,14 +484,14 @@ class Ref:
         if impl is None:
             impl = x["default"]
         if impl is None:
-            return ("e",), out, o2
-        r = self.run_impl(impl, o2, nested)
+            return ("e",), out, o2, ()
+        r, chain = self.run_impl(impl, o2, nested)
         if r[0] == "v":
             if x["cb"] is not None:
                 r = ("v", ("cb", x["cb"], r[1]))
             if nested is not None:
-                nested.append(dict(cache=x["cache"], value=r[1], outcome=out, disp=x["disp"]))
-        return r, out, o2
+                nested.append(dict(cache=x["cache"], value=r[1], outcome=out, disp=x["disp"], chain=chain))
+        return r, out, o2, chain
 
 
 def reads_consistent(v, o2, impls):
@@ -605,7 +607,7 @@ def run_impl(L, sc):
             obs = w.show_eval(got)
             stats["evals"] += 1
             nested = []
-            exp, outcome, o2 = ref.eval(op[1], {kk: v for kk, v in op[2]}, nested)
+            exp, outcome, o2, chain = ref.eval(op[1], {kk: v for kk, v in op[2]}, nested)
             x = ref.ds[op[1]]
             if got[0] == "e":
                 stats["fails"] += 1
@@ -639,7 +641,9 @@ def run_impl(L, sc):
                                       dispatch_when_stored=[list(r["outcome"]) for r in recs],
                                       expected=World.show_val(exp[1]) if exp[0] == "v" else "failure",
                                       desc="a value stored for one dispatch value was returned for another"))
-                elif not reads_consistent(got[1], o2, impls):
+                elif any(r["chain"] == chain for r in same) and not reads_consistent(got[1], o2, impls):
+                    # (only when the same implementations are bound now as when it was stored: after a
+                    #  re-registration the evaluation counts as "already stored" under the new keys)
                     cands.append(dict(op=idx, zone=None, got=obs,
                                       desc="served value was computed from other option values than the current ones"))
         else:
